@@ -3879,6 +3879,10 @@ fn parse_group<'a>(
                 }
             }
         }));
+    } else {
+        // We found it, but possibly only after skipping over some unexpected tokens. In that case,
+        // `expect_token_0!` has reported them.
+        errors.append(&mut phony_errors);
     }
 
     // If we made it this far, we successfully parsed the group. Return the inner term.
